@@ -348,11 +348,13 @@ def nested_matches(subject):
     number although higher-numbered groups took part), with a trailing optional group that does not participate,
     and an alternation-in-a-loop shape where the group closed last is not the highest-numbered participant."""
     n = len(subject)
+    # one group table for all matches (as for every iterator over one pattern): 1 'pair' (outer), 2 'key' and 3 (unnamed),
+    # both nested in 'pair', 4 'w' (a trailing optional group)
     return [
-        AbsMatch(subject, 0, 6, [("pair", 0, 6), ("key", 0, 2), (None, 3, 6), (None, -1, -1)], lastindex=1),
-        AbsMatch(subject, 7, 12, [("pair", 7, 11), ("key", 7, 8), (None, 9, 11), (None, 11, 12)], lastindex=4),
-        AbsMatch(subject, n - 4, n, [(None, n - 2, n - 1), ("w", n - 1, n), (None, n - 4, n - 3)], lastindex=2),
-        AbsMatch(subject, n, n, [("pair", n, n), ("key", n, n), (None, -1, -1), (None, -1, -1)], lastindex=1),
+        AbsMatch(subject, 0, 6, [("pair", 0, 6), ("key", 0, 2), (None, 3, 6), ("w", -1, -1)], lastindex=1),
+        AbsMatch(subject, 7, 12, [("pair", 7, 11), ("key", 7, 8), (None, 9, 11), ("w", 11, 12)], lastindex=4),
+        AbsMatch(subject, n - 4, n, [("pair", n - 4, n), ("key", n - 4, n - 3), (None, n - 2, n), ("w", -1, -1)], lastindex=1),
+        AbsMatch(subject, n, n, [("pair", n, n), ("key", n, n), (None, -1, -1), ("w", -1, -1)], lastindex=1),
     ]
 
 
